@@ -66,7 +66,9 @@ Fixpoint apply_calls (g : cgrid) (cs : list ccall) : cgrid :=
   | c :: r => apply_calls (apply_call (keep_junk g) g c) r
   end.
 
-(** case = tab :: scrollback :: w :: h :: fg :: bg :: m0 :: m1 :: m2 :: ops  (ops as in Tty/Vt.v,
+(** case = 8 numbers describing the real console of the harness (kind, depth, padding, font, logo,
+    colour layout, pixel margins: they do not concern the cell-level model, which gets [w] and [h])
+    ++ tab :: scrollback :: w :: h :: fg :: bg :: m0 :: m1 :: m2 :: ops  (ops as in Tty/Vt.v,
     without attach); the console starts with every cell = (m0, m1, m2).
     observation per op = returned values ++ [cx; cy; vy; st; #calls; sum1; sum2 of the grid cells]
     a panic ends the case with 0xdead. *)
@@ -89,7 +91,8 @@ Fixpoint run_obs18 (v : vt) (g : cgrid) (ops : list op) : list N :=
 
 Definition run_case (l : list N) : list N :=
   match l with
-  | tab :: scrollback :: w :: h :: fg :: bg :: m0 :: m1 :: m2 :: rest =>
+  | _ :: _ :: _ :: _ :: _ :: _ :: _ :: _ ::
+    tab :: scrollback :: w :: h :: fg :: bg :: m0 :: m1 :: m2 :: rest =>
       match attach (new_vt tab scrollback) w h fg bg with
       | Ok v0 => run_obs18 v0 (mkGrid w h (fun _ _ => (m0, m1, m2))) (dec_ops (length rest) rest)
       | PanicOOB => [0xdead]
